@@ -143,6 +143,11 @@ def custom_templates(rng, mn, structure):
                  _st(1, [1], 0, 0, 'HIGH_HAND', 2 * mn, cap),
                  _st(1, [0], 1, 0, 'HIGH_HAND', 2 * mn, cap)],
         maxn=9, stud=True)
+    t['drawboard'] = dict(  # a draw street that also deals board cards
+        deck='STANDARD', hand_types=['StandardHighHand'],
+        streets=[_st(0, [0] * 3, 0, 0, P, mn, cap),
+                 _st(0, [], 2, 1, P, mn, cap),
+                 _st(1, [], 1, 1, P, 2 * mn, cap)], maxn=6, stud=False)
     t['greek'] = dict(
         deck='STANDARD', hand_types=['GreekHoldemHand'],
         streets=[_st(0, [0, 0], 0, 0, P, mn, cap),
@@ -311,9 +316,11 @@ def gen_rake(rng, chip_type):
         return ['pct', rng.choice([0.0, 0.5, 0.25]), 'inf', rng.random() < 0.3] \
             if chip_type == 'float' else None
     if k < 0.85:
-        return ['pct', rng.choice([0.05, 0.1, 0.025, 0.5]),
+        return ['pct', rng.choice([0.05, 0.1, 0.025, 0.5, 1.0]),
                 rng.choice(['inf', 1, 3, 10]), rng.random() < 0.4]
-    return ['chip', rng.choice([1, 2])]
+    if k < 0.93:
+        return ['chip', rng.choice([1, 2])]
+    return ['drop', rng.choice([1, 3])]      # flat drop: may take a whole pot
 
 
 def make_rake(spec):
@@ -330,6 +337,13 @@ def make_rake(spec):
             r = k if amount >= 5 * k else 0
             return r, amount - r
         return chip_rake
+    if spec[0] == 'drop':
+        k = spec[1]
+
+        def drop_rake(amount, state=None):
+            r = min(amount, k)
+            return r, amount - r
+        return drop_rake
     raise ValueError(spec)
 
 
